@@ -303,23 +303,31 @@ impl Tablet {
     fn update_stale_nodes(&mut self, recreated_nodes: &HashMap<Uuid, Arc<Node>>) {
         let mut any_updated = false;
         for (node, _) in self.replicas.all.iter_mut() {
-            if let Some(new_node) = recreated_nodes.get(&node.host_id) {
-                assert!(!Arc::ptr_eq(new_node, node));
+            // The replica may already point to the new object: re-resolving
+            // previously unknown replicas (which happens right before this step)
+            // takes `Node` objects from the new topology.
+            if let Some(new_node) = recreated_nodes.get(&node.host_id)
+                && !Arc::ptr_eq(new_node, node)
+            {
                 any_updated = true;
                 *node = Arc::clone(new_node);
             }
         }
 
         if any_updated {
-            // Now that we know we have some nodes to update we need to go over
-            // per-dc nodes and update them too.
-            for dc_nodes in self.replicas.per_dc.values_mut() {
-                for (node, _) in dc_nodes.iter_mut() {
-                    if let Some(new_node) = recreated_nodes.get(&node.host_id) {
-                        *node = Arc::clone(new_node);
-                    }
+            // Now that we know we have some nodes to update we need to regroup
+            // per-dc nodes too. A recreated node may have changed its datacenter,
+            // so the groups are rebuilt rather than patched in place.
+            let mut per_dc: HashMap<String, Vec<(Arc<Node>, Shard)>> = HashMap::new();
+            for (replica, shard) in self.replicas.all.iter() {
+                if let Some(dc) = replica.datacenter.as_ref() {
+                    per_dc
+                        .entry(dc.to_string())
+                        .or_default()
+                        .push((Arc::clone(replica), *shard));
                 }
             }
+            self.replicas.per_dc = per_dc;
         }
     }
 
